@@ -70,6 +70,17 @@ def traffic(rng, n, lat, lon, max_km=160):
         rng.shuffle(recs)
         if first is not None:
             recs.insert(0, first)
+        if k % 4 == 1 and recs:
+            # the first frame ever heard from this address arrives with a bit error in its parity
+            # field (the library decodes it and reports a non-zero checksum; the tracker takes it)
+            b = bytearray(recs[0])
+            b[11 + rng.randrange(3)] ^= 1 << rng.randrange(8)
+            recs[0] = bytes(b)
+        elif k % 4 == 3 and len(recs) > 1:
+            j = rng.randrange(1, len(recs))
+            b = bytearray(recs[j])
+            b[11 + rng.randrange(3)] ^= 1 << rng.randrange(8)
+            recs[j] = bytes(b)
         # keep even before odd order irrelevant; the library decides what a pair means
         lines += [enc.line(r) for r in recs]
     return lines
